@@ -7,6 +7,11 @@
           | ( par req req ... )          concurrent requests (distinct translation units, no transient faults)
           | ( midzero req )            ZeroStats issued while the request is held inside its cache lookup
           | ( disk res|pp garbage|truncate|empty|delete tu )
+          | ( disk res flip tu off )     bytes changed in place inside a member's data: member off mod 3 (obj, stdout,
+                                         stderr), position (off / 3) mod its stored size
+          | ( restart_broken )           server restart (rw) while the cache directory cannot be opened (a regular
+                                         file in its place): every storage call of every request fails
+          | ( heal )                     the directory is usable again (same server: lazily opened stores must retry)
           | ( restart rw|ro )
           | ( zero )
      class  = compile | unsupported | vanished | notcompile | cannotcache | cannotcache2
@@ -14,7 +19,7 @@
    result = ( obs ... ), one per step:
      ( req ( client outs ) pp_runs cc_runs disk stats )          likewise ( midzero ... )
      ( par ( ( client outs ) ... ) ( pp_runs per tu ) ( cc_runs per tu ) disk stats )
-     ( disk disk ) | ( restart disk stats ) | ( zero stats )
+     ( disk disk ) | ( restart disk stats ) | ( zero stats ) | ( restart_broken disk stats ) | ( heal disk )
      client = ( finished status stdout stderr ) | ( fatal ) | ( unsupported ) | ( unhandled )
      outs   = ( bytes ... )
      disk   = ( res_good res_bad pp_good pp_bad pp_empty )        entry files by what the real decoders say
@@ -30,6 +35,14 @@ Local Open Scope N_scope.
 Local Open Scope string_scope.
 
 Definition digit (t : N) : list N := [48 + t].
+
+(* the fake compiler's object file: "objN" followed by 48 bytes that do not compress *)
+Fixpoint fill (n : nat) (i t : N) : list N :=
+  match n with
+  | O => []
+  | S n' => ((i * i * 7 + i * 13 + t * 29 + 3) mod 256) :: fill n' (i + 1) t
+  end.
+Definition tu_obj (t : N) : list N := bs "obj" ++ digit t ++ fill 48 0 t.
 
 Definition tu_key (t : N) : key := [t].
 
@@ -52,7 +65,7 @@ Definition mk_oracle (ppmode : bool) (t : N) (x : sx) : oracle :=
          o_c_status := get_N cs;
          o_c_stdout := bs "out" ++ digit t;
          o_c_stderr := bs "err" ++ digit t;
-         o_c_outputs := [(bs "obj", bs "obj" ++ digit t)];
+         o_c_outputs := [(bs "obj", tu_obj t)];
          o_c_writes := get_bool cout;
          o_cacheable := true |}
   | _ =>
@@ -94,6 +107,21 @@ Definition dec_faults (outdir_ok : bool) (x : sx) : faults :=
   | _ => no_faults
   end.
 
+(* the cache directory cannot be opened: every storage call fails *)
+Definition broken_faults (outdir_ok : bool) : faults :=
+  {| f_ppget := PFErr; f_ppupd := WErr; f_ppput := WErr; f_get := GErr; f_put := WErr; f_outdir_ok := outdir_ok |}.
+
+(* ... and an interaction with a transient fault of its own keeps that fault (the harness's fault-injecting
+   storage answers it without reaching the directory) *)
+Definition broken_over (ro : bool) (f : faults) : faults :=
+  (* a read-only store opened over an unusable directory has an empty index: lookups simply miss *)
+  {| f_ppget := match f_ppget f with PFNone => if ro then PFAbsent else PFErr | x => x end;
+     f_ppupd := match f_ppupd f with WNone => WErr | x => x end;
+     f_ppput := match f_ppput f with WNone => WErr | x => x end;
+     f_get := match f_get f with GNone => if ro then GMiss else GErr | x => x end;
+     f_put := match f_put f with WNone => WErr | x => x end;
+     f_outdir_ok := f_outdir_ok f |}.
+
 Definition dec_class (x : sx) : req_class :=
   if is_sym "unsupported" x then QUnsupported else if is_sym "vanished" x then QUnsupported
   else if is_sym "notcompile" x then QNotCompile else if is_sym "cannotcache" x then QCannotCache 0
@@ -130,7 +158,7 @@ Definition count_if {A} (p : A -> bool) (l : list A) : N := N.of_nat (length (fi
 
 Definition enc_disk (st : cstate) : sx :=
   SL [ SN (count_if (fun e => match snd e with RGood _ _ _ => true | _ => false end) (cs_res st));
-       SN (count_if (fun e => match snd e with RUnparse => true | _ => false end) (cs_res st));
+       SN (count_if (fun e => match snd e with RUnparse | RBadObj | RBadOut => true | _ => false end) (cs_res st));
        SN (count_if (fun e => match snd e with PGood _ _ => true | _ => false end) (cs_pp st));
        SN (count_if (fun e => match snd e with PUnparse => true | _ => false end) (cs_pp st));
        SN (count_if (fun e => match snd e with PEmpty => true | _ => false end) (cs_pp st)) ].
@@ -148,19 +176,27 @@ Definition enc_result (r : response) : sx :=
 
 (* ---------- running a history ---------- *)
 
-Record mstate := { m_cache : cstate; m_stats : stats }.
+(* [m_broken]: the cache directory cannot be opened.  [m_dead]: a READ-ONLY store was first touched while the
+   directory was unusable: `LruDiskCache::new_read_only` never touches the directory and succeeds with an empty
+   index, which DiskCache keeps until the next restart — every lookup misses even after the directory is back
+   (builds stay correct; a writable store reports the error instead and is opened again on the next use). *)
+Record mstate := { m_cache : cstate; m_stats : stats; m_broken : bool; m_dead : bool }.
+
+Definition enc_disk_m (m : mstate) : sx :=
+  if m_broken m then SL [SN 0; SN 0; SN 0; SN 0; SN 0] else enc_disk (m_cache m).
 
 Definition apply_actions (acts : list action) (s : stats) : stats :=
   fold_left (fun s a => apply_action a s) acts s.
 
 (* one request: new cache state, response, its critical sections, its translation unit *)
-Definition run_req (ppmode : bool) (orcs : list sx) (faults_on : bool) (x : sx) (st : cstate)
+Definition run_req (ppmode : bool) (orcs : list sx) (faults_on broken : bool) (x : sx) (st : cstate)
   : cstate * response * list action * N :=
   match x with
   | SL [_; t; cl; cc; ok; fs] =>
       let tu := get_N t in
       let o := adjust (get_bool ok) (mk_oracle ppmode tu (nth (N.to_nat tu) orcs (SL []))) in
-      let f := if faults_on then dec_faults (get_bool ok) fs else dec_faults (get_bool ok) (SL []) in
+      let f0 := if faults_on then dec_faults (get_bool ok) fs else dec_faults (get_bool ok) (SL []) in
+      let f := if broken then broken_over (cs_ro st) f0 else f0 in
       let '(st', r, acts) := request f (dec_class cl) (dec_cc cc) o st in
       (st', r, acts, tu)
   | _ => (st, not_executed CFatal, [], 0)
@@ -190,46 +226,53 @@ Fixpoint run_par (ppmode : bool) (orcs : list sx) (xs : list sx) (m : mstate) (r
   match xs with
   | [] => (m, rev res, pp, cc)
   | x :: r =>
-      let '(st', rsp, acts, tu) := run_req ppmode orcs false x (m_cache m) in
-      run_par ppmode orcs r {| m_cache := st'; m_stats := apply_actions acts (m_stats m) |} (enc_result rsp :: res)
+      let '(st', rsp, acts, tu) := run_req ppmode orcs false (m_broken m || m_dead m) x (m_cache m) in
+      run_par ppmode orcs r {| m_cache := st'; m_stats := apply_actions acts (m_stats m); m_broken := m_broken m; m_dead := m_dead m |}
+              (enc_result rsp :: res)
               (add_at (N.to_nat tu) (r_pp_runs rsp) pp) (add_at (N.to_nat tu) (r_cc_runs rsp) cc)
   end.
 
 Definition run_one (ppmode : bool) (orcs : list sx) (m : mstate) (x : sx) : mstate * sx :=
+  let b := m_broken m in
   match x with
   | SL (tag :: args) =>
       if is_sym "req" tag then
-        let '(st', rsp, acts, _) := run_req ppmode orcs true x (m_cache m) in
-        let m' := {| m_cache := st'; m_stats := apply_actions acts (m_stats m) |} in
+        let '(st', rsp, acts, _) := run_req ppmode orcs true (b || m_dead m) x (m_cache m) in
+        let m' := {| m_cache := st'; m_stats := apply_actions acts (m_stats m); m_broken := b; m_dead := m_dead m |} in
         (m', SL [sym "req"; enc_result rsp; SN (r_pp_runs rsp); SN (r_cc_runs rsp);
-                 enc_disk (m_cache m'); enc_stats (m_stats m')])
+                 enc_disk_m m'; enc_stats (m_stats m')])
       else if is_sym "midzero" tag then
         (* ZeroStats while the request waits inside its cache lookup: its first two critical sections
            (compile_requests, requests_executed) are wiped, the later ones are not.  A request that never looks
            the cache up completes first and the zeroing comes after it. *)
         match args with
         | [rq] =>
-            let '(st', rsp, acts, _) := run_req ppmode orcs true rq (m_cache m) in
+            let '(st', rsp, acts, _) := run_req ppmode orcs true (b || m_dead m) rq (m_cache m) in
             let s' := if reaches_lookup rq rsp then apply_actions (skipn 2 acts) zero_stats else zero_stats in
-            let m' := {| m_cache := st'; m_stats := s' |} in
+            let m' := {| m_cache := st'; m_stats := s'; m_broken := b; m_dead := m_dead m |} in
             (m', SL [sym "midzero"; enc_result rsp; SN (r_pp_runs rsp); SN (r_cc_runs rsp);
-                     enc_disk (m_cache m'); enc_stats (m_stats m')])
+                     enc_disk_m m'; enc_stats (m_stats m')])
         | _ => (m, err "bad midzero step")
         end
       else if is_sym "par" tag then
         let '(m', res, pp, cc) := run_par ppmode orcs args m [] [0; 0; 0; 0] [0; 0; 0; 0] in
-        (m', SL [sym "par"; SL res; SL (map SN pp); SL (map SN cc); enc_disk (m_cache m'); enc_stats (m_stats m')])
+        (m', SL [sym "par"; SL res; SL (map SN pp); SL (map SN cc); enc_disk_m m'; enc_stats (m_stats m')])
       else if is_sym "disk" tag then
         match args with
-        | [target; what; t] =>
+        | target :: what :: t :: rest =>
             let tu := get_N t in
             let o := mk_oracle ppmode tu (nth (N.to_nat tu) orcs (SL [])) in
-            let st' := if is_sym "res" target then damage_res (dec_damage what) (o_key o) (m_cache m)
+            let d := if is_sym "flip" what
+                     then (if (match rest with off :: _ => get_N off | [] => 0 end) mod 3 =? 0 then DFlipObj else DFlipOut)
+                     else dec_damage what in
+            let st' := if b then m_cache m      (* nothing below the cache directory can be reached *)
+                       else if is_sym "res" target then damage_res d (o_key o) (m_cache m)
                        else match o_pp_key o with
-                            | Some pk => damage_pp (dec_damage what) pk (m_cache m)
+                            | Some pk => damage_pp d pk (m_cache m)
                             | None => m_cache m
                             end in
-            ({| m_cache := st'; m_stats := m_stats m |}, SL [sym "disk"; enc_disk st'])
+            let m' := {| m_cache := st'; m_stats := m_stats m; m_broken := b; m_dead := m_dead m |} in
+            (m', SL [sym "disk"; enc_disk_m m'])
         | _ => (m, err "bad disk step")
         end
       else if is_sym "restart" tag then
@@ -237,11 +280,18 @@ Definition run_one (ppmode : bool) (orcs : list sx) (m : mstate) (x : sx) : msta
         | [mode] =>
             let st' := restart (is_sym "ro" mode) (m_cache m) in
             (* a new server process: fresh statistics *)
-            ({| m_cache := st'; m_stats := zero_stats |}, SL [sym "restart"; enc_disk st'; enc_stats zero_stats])
+            let m' := {| m_cache := st'; m_stats := zero_stats; m_broken := b; m_dead := b && is_sym "ro" mode |} in
+            (m', SL [sym "restart"; enc_disk_m m'; enc_stats zero_stats])
         | _ => (m, err "bad restart step")
         end
+      else if is_sym "restart_broken" tag then
+        let m' := {| m_cache := restart false (m_cache m); m_stats := zero_stats; m_broken := true; m_dead := false |} in
+        (m', SL [sym "restart_broken"; enc_disk_m m'; enc_stats zero_stats])
+      else if is_sym "heal" tag then
+        let m' := {| m_cache := m_cache m; m_stats := m_stats m; m_broken := false; m_dead := m_dead m |} in
+        (m', SL [sym "heal"; enc_disk_m m'])
       else if is_sym "zero" tag then
-        ({| m_cache := m_cache m; m_stats := zero_stats |}, SL [sym "zero"; enc_stats zero_stats])
+        ({| m_cache := m_cache m; m_stats := zero_stats; m_broken := b; m_dead := m_dead m |}, SL [sym "zero"; enc_stats zero_stats])
       else (m, err "bad step")
   | _ => (m, err "bad step")
   end.
@@ -255,7 +305,7 @@ Fixpoint run_all (ppmode : bool) (orcs : list sx) (m : mstate) (steps : list sx)
 Definition run_reqsm (x : sx) : sx :=
   match x with
   | SL [pm; SL orcs; SL steps] =>
-      SL (run_all (get_bool pm) orcs {| m_cache := empty_cache; m_stats := zero_stats |} steps)
+      SL (run_all (get_bool pm) orcs {| m_cache := empty_cache; m_stats := zero_stats; m_broken := false; m_dead := false |} steps)
   | _ => err "bad case"
   end.
 
